@@ -186,12 +186,15 @@ static void seqx_run(const struct seqx_cfg *c)
 	/* initial state */
 	{
 		struct seqx_hist h0 = {0};
-		void *sys = c->fresh();
+		void *sys;
 
-		c->canon(sys, &key);
-		vset_add(&seen, v_hash(key.p, key.len));
+		/* the breadcrumb first: a death while the initial object is built is a finding about the empty
+		 * history, not a broken check */
 		seqx_hist_compact(&h0, &rj);
 		v_crumb(c->crumb_key, rj.p);
+		sys = c->fresh();
+		c->canon(sys, &key);
+		vset_add(&seen, v_hash(key.p, key.len));
 		c->check_state(sys, &h0);
 		c->destroy(sys);
 		queue[qtail++] = h0;
